@@ -3,4 +3,6 @@ PROPS = {
     'C02': {'modules': ['harness.h_c02']},
     'C18': {'modules': ['harness.h_c18']},
     'C19': {'modules': ['harness.h_c19']},
+    'C14': {'modules': ['harness.h_c14']},
+    'C15': {'modules': ['harness.h_c15']},
 }
